@@ -615,7 +615,28 @@ def np_all(I, x, **kw):
     if isinstance(x, Arr):
         items = concrete_items(I, x)
         if items is None:
-            raise Unsupported('np.all over symbolic array')
+            if not (isinstance(x.shape, tuple) and len(x.shape) in (1, 2)):
+                raise Unsupported('np.all over symbolic N-D array')
+            # all over a symbolic-size array: an opaque boolean r with  r => every instance,  not r => a witness that fails
+            r = I.ctx.fresh('all', 'bool')
+            if len(x.shape) == 1:
+                n = x.shape[0]
+                add_univ(I, n, lambda j: z3.Implies(r.e, zbool(x.fn((j,)))))
+                k = I.ctx.fresh('allw', 'int')
+                I.ctx.fact(z3.Implies(z3.Not(r.e), z3.And(k.e >= 0, k.e < zint(n), z3.Not(zbool(x.fn((k,)))))))
+                add_witness(I, n, k)
+            else:
+                n, m = x.shape
+                if isinstance(n, int) and n <= 4:
+                    for i in range(n):
+                        add_univ(I, m, (lambda i: lambda j: z3.Implies(r.e, zbool(x.fn((i, j)))))(i))
+                    ks = [I.ctx.fresh('allw', 'int') for _ in range(n)]
+                    I.ctx.fact(z3.Implies(z3.Not(r.e), z3.Or(*[z3.And(k.e >= 0, k.e < zint(m), z3.Not(zbool(x.fn((i, k))))) for i, k in enumerate(ks)])))
+                    for k in ks:
+                        add_witness(I, m, k)
+                else:
+                    raise Unsupported('np.all over symbolic 2-D array')
+            return r
         return Bm.b_all(I, VList(items))
     if isinstance(x, (VList, tuple)):
         return Bm.b_all(I, x)
@@ -685,6 +706,21 @@ def np_full(I, shape, fill, dtype=None, **kw):
     a = np_zeros(I, shape, dtype)
     a.fn = lambda idx: fill
     return a
+
+
+def np_full_like(I, a, fill, dtype=None, **kw):
+    """array of the shape AND dtype of `a` (unless dtype is given): the fill value is cast to that dtype"""
+    a = a if isinstance(a, Arr) else np_array(I, a)
+    dt = _dt(dtype) or a.dtype
+    Bm = _B()
+    v = fill
+    if dt == 'int':
+        v = Bm.b_int(I, fill)
+    elif dt == 'bool':
+        v = Bm.b_bool(I, fill)
+    elif dt == 'float':
+        v = Bm.b_float(I, fill)
+    return Arr(a.shape, lambda idx: v, dt)
 
 
 def np_broadcast_arrays(I, *arrs):
@@ -806,7 +842,10 @@ def make(I):
         logical_xor=F('logical_xor', lambda I, a, b: I.binop('^', a, b)),
         array=F('array', np_array), asarray=F('asarray', np_asarray), asanyarray=F('asanyarray', np_asarray),
         atleast_1d=F('atleast_1d', np_atleast_1d), zeros=F('zeros', np_zeros), ones=F('ones', np_ones),
-        full=F('full', np_full), broadcast_arrays=F('broadcast_arrays', np_broadcast_arrays), pad=F('pad', np_pad),
+        full=F('full', np_full), full_like=F('full_like', np_full_like),
+        zeros_like=F('zeros_like', lambda I, a, **k: np_full_like(I, a, 0, **k)),
+        ones_like=F('ones_like', lambda I, a, **k: np_full_like(I, a, 1, **k)),
+        empty_like=F('empty_like', lambda I, a, **k: np_full_like(I, a, 0, **k)), broadcast_arrays=F('broadcast_arrays', np_broadcast_arrays), pad=F('pad', np_pad),
         allclose=F('allclose', np_allclose), isclose=F('isclose', np_isclose), any=F('any', np_any), all=F('all', np_all),
         dot=F('dot', np_dot), matmul=F('matmul', np_matmul), arange=F('arange', np_arange), vstack=F('vstack', np_vstack),
         copy=F('copy', np_copy), min=F('min', np_minmax(True)), max=F('max', np_minmax(False)),
